@@ -576,6 +576,18 @@ func (sc *SubCache[EntityT, ExcerptT, CacheT]) MergeAll(remote string) <-chan en
 				// might as well keep them in memory
 				sc.cached[result.Id] = cached
 				sc.mu.Unlock()
+
+				// make the merged entity searchable
+				index, err := sc.repo.GetIndex(sc.namespace)
+				if err != nil {
+					out <- entity.NewMergeError(err, result.Id)
+					return
+				}
+				err = index.IndexOne(result.Id.String(), sc.makeIndexData(cached))
+				if err != nil {
+					out <- entity.NewMergeError(err, result.Id)
+					return
+				}
 			}
 		}
 
